@@ -83,9 +83,10 @@ def build(name, extra=True):
         last = links[-1]
         first = links[0]
         v, tri = sc.mesh_data("octa")
-        specs = [("extra:capsule", last, np.array([0.0, 0.0, 0.15]), C.Capsule(np.eye(4), 0.05, 0.2)),
-                 ("extra:cone", first, np.array([0.35, 0.0, 0.3]), C.Cone(np.eye(4), 0.1, 0.25)),
-                 ("extra:mesh", last, np.array([0.0, 0.2, 0.0]), C.MeshGraph(np.eye(4), np.ascontiguousarray(v * 0.25), tri))]
+        E = np.eye(4)     # one pose array object shared by all added colliders, as in `I = np.eye(4); Capsule(I, ...); Cone(I, ...)`
+        specs = [("extra:capsule", last, np.array([0.0, 0.0, 0.15]), C.Capsule(E, 0.05, 0.2)),
+                 ("extra:cone", first, np.array([0.35, 0.0, 0.3]), C.Cone(E, 0.1, 0.25)),
+                 ("extra:mesh", last, np.array([0.0, 0.2, 0.0]), C.MeshGraph(E, np.ascontiguousarray(v * 0.25), tri))]
         for frame, parent, off, col in specs:
             T = np.eye(4)
             T[:3, 3] = off
@@ -144,6 +145,24 @@ def other_bvh(G=None):
     return b
 
 
+def floor_bvh(G=None):
+    """A second environment whose only box TOUCHES the robots' base from below with bit-equal coordinates (top face z = 0 in the base
+    frame): the root boxes of the two trees touch exactly."""
+    from pytransform3d.transform_manager import TransformManager
+    from distance3d.broad_phase import BoundingVolumeHierarchy
+    from distance3d import colliders as C
+    tm = TransformManager()
+    b = BoundingVolumeHierarchy(tm, "floor_world")
+    T = np.eye(4)
+    T[:3, 3] = [0.0, 0.0, -0.125]
+    if G is not None:
+        T = G @ T
+    tm.add_transform("floor", "floor_world", T)
+    b.add_collider("floor", C.Box(np.ascontiguousarray(T), np.array([4.0, 4.0, 0.25])))
+    b.update_collider_poses()
+    return b
+
+
 def queries(G=None):
     qs = []
     for t, s, c in [("box", 0, (0.3, 0.0, 0.6)), ("sphere", 0, (0.0, 0.0, 1.2)), ("box", 3, (0.6, 0.3, 0.3)), ("sphere", 3, (5.0, 5.0, 5.0)),
@@ -178,8 +197,12 @@ def observe(tm, bvh, other, qs):
         obs["ownwl:" + f] = sorted(bvh.aabb_overlapping_colliders(bvh.colliders_[f], whitelist=bvh.self_collision_whitelists_[f]).keys())
     pairs = bvh.aabb_overlapping_with_self()
     obs["self_pairs"] = sorted((a[0], b[0]) for a, b in pairs)
+    other, floor = other if isinstance(other, tuple) else (other, None)
     pairs = bvh.aabb_overlapping_with_other_bvh(other)
     obs["other_pairs"] = sorted((a[0], b[0]) for a, b in pairs)
+    if floor is not None:
+        obs["floor_pairs"] = sorted((a[0], b[0]) for a, b in bvh.aabb_overlapping_with_other_bvh(floor))
+        obs["floor_pairs_reverse"] = sorted((b[0], a[0]) for a, b in floor.aabb_overlapping_with_other_bvh(bvh))
     obs["detect"] = dict(self_collision.detect(bvh))
     obs["detect_any"] = bool(self_collision.detect_any(bvh))
     return obs
@@ -227,10 +250,20 @@ def check_state(tm, bvh, other, qs, cls, where, viol, seen):
     exp = sorted((f, g) for f in frames for g in frames if f != g and _ovl(boxes[f], boxes[g]))
     if obs["self_pairs"] != exp:
         add(_viol("aabb_overlapping_with_self", "differs_from_all_pairs_model", cls, {"got": obs["self_pairs"], "expected": exp, "where": where}))
+    other_all = other if isinstance(other, tuple) else (other, None)
+    other = other_all[0]
     oboxes = {f: np.asarray(c.aabb(), dtype=float) for f, c in other.colliders_.items()}
     exp = sorted((f, g) for f in frames for g in oboxes if _ovl(boxes[f], oboxes[g]))
     if obs["other_pairs"] != exp:
         add(_viol("aabb_overlapping_with_other_bvh", "differs_from_all_pairs_model", cls, {"got": obs["other_pairs"], "expected": exp, "where": where}))
+    if "floor_pairs" in obs:
+        fl = other_all[1]
+        fboxes = {f: np.asarray(c.aabb(), dtype=float) for f, c in fl.colliders_.items()}
+        exp = sorted((f, g) for f in frames for g in fboxes if _ovl(boxes[f], fboxes[g]))
+        for key in ("floor_pairs", "floor_pairs_reverse"):
+            if obs[key] != exp:
+                add(_viol("aabb_overlapping_with_other_bvh", "differs_from_all_pairs_model:touching_environment", cls,
+                          {"direction": key, "got": obs[key], "expected": exp, "where": where}))
     # 4. narrow phase: all pairs
     coll = {}
     for f in frames:
@@ -266,7 +299,7 @@ def run_state(desc):
     joints = sorted(r["joints"])
     key = "joints_thorough" if desc.get("dense") else "joints"
     configs = list(itertools.product(*[range(len(r[key][j])) for j in joints]))
-    other = other_bvh(base_of(name))
+    other = (other_bvh(base_of(name)), floor_bvh(base_of(name)))
     qs = queries(base_of(name))
     tm, bvh = build(name)
     viol, seen = [], set()
